@@ -1,7 +1,7 @@
 (* Props/C14.v — conversions are exact on their domain and reject the rest; f-strings. *)
 From Coq Require Import ZArith List Bool Floats.SpecFloat.
 From Rscel Require Import Base.Prims Base.F64 Base.Text Base.FloatText Model.Value Model.Ops Model.Dispatch Model.Funcs Model.Interp.
-From Rscel Require Import Proofs.Blocks Proofs.Conv Proofs.Seq.
+From Rscel Require Import Base.FloatPrint Proofs.Blocks Proofs.Conv Proofs.Seq Proofs.FloatPrint.
 Import ListNotations.
 Import Coq.Strings.String.StringSyntax.
 Open Scope Z_scope.
@@ -61,6 +61,36 @@ Theorem C14_double_of_string : forall now s,
   ROk (match rust_parse_f64 s with Some x => VFloat x | None => VErr EValue end).
 Proof. exact double_of_string. Qed.
 Print Assumptions C14_double_of_string.
+
+(** double(string(d)) == d: what string() prints for a finite double - the shortest digit string that
+    reads back, the closer neighbour first - is read back by double() as exactly that double *)
+Theorem C14_print_reads_back : forall s m e t,
+  print_f64 (S754_finite s m e) = Some t -> rust_parse_f64 t = Some (S754_finite s m e).
+Proof. exact print_reads_back. Qed.
+Print Assumptions C14_print_reads_back.
+
+Theorem C14_double_of_string_of_double : forall now s m e t,
+  construct_type now #"string" [VFloat (S754_finite s m e)] = ROk (VString t) ->
+  construct_type now #"double" [VString t] = ROk (VFloat (S754_finite s m e)).
+Proof.
+  intros now s m e t H. rewrite double_of_string.
+  assert (P : print_f64 (S754_finite s m e) = Some t).
+  { change (construct_type now #"string" [VFloat (S754_finite s m e)]) with
+      (match print_f64 (S754_finite s m e) with Some t0 => ok (VString t0) | None => unmod end) in H.
+    destruct (print_f64 (S754_finite s m e)); [inversion H; reflexivity|discriminate]. }
+  rewrite (print_reads_back s m e t P). reflexivity.
+Qed.
+Print Assumptions C14_double_of_string_of_double.
+
+Theorem C14_print_specials :
+  print_f64 S754_nan = Some [78; 97; 78] /\ print_f64 (S754_infinity false) = Some [105; 110; 102] /\
+  print_f64 (S754_infinity true) = Some [45; 105; 110; 102] /\ print_f64 (S754_zero false) = Some [48] /\
+  print_f64 (S754_zero true) = Some [45; 48] /\
+  rust_parse_f64 [78; 97; 78] = Some S754_nan /\ rust_parse_f64 [105; 110; 102] = Some (S754_infinity false) /\
+  rust_parse_f64 [45; 105; 110; 102] = Some (S754_infinity true) /\ rust_parse_f64 [48] = Some (S754_zero false) /\
+  rust_parse_f64 [45; 48] = Some (S754_zero true).
+Proof. exact print_specials. Qed.
+Print Assumptions C14_print_specials.
 
 (** string(bytes(s)) == s: every string of Unicode scalar values is valid UTF-8 decoding to itself *)
 Theorem C14_utf8_roundtrip : forall cs, Forall (fun c => is_scalar c = true) cs ->
